@@ -22,7 +22,7 @@ define i32 @f12(i32 %x) #12 {
 }
 
 attributes #0 = { nounwind }
-attributes #1 = { readnone "key"="value" }
+attributes #1 = { readnone "key"="value" "k\22q"="v\5Cw" }
 attributes #2 = { noinline optnone }
 attributes #3 = { alwaysinline }
 attributes #4 = { cold }
